@@ -133,6 +133,7 @@ func gen(r *lib.Rand, tier, stream string, i int) History {
 	}
 	apps := 3 + r.Intn(5)
 	lastApp, lastNanos := 0, int64(0)
+	usedInBlock := map[int]bool{}
 	cur := h.Start
 	const maxSecs = int64(1) << 37 // keeps every block time a valid protobuf timestamp
 	oracleShare := r.Intn(5) // 0: no oracle requests in this history
@@ -140,6 +141,17 @@ func gen(r *lib.Rand, tier, stream string, i int) History {
 		switch r.Weighted(10, 6, 4, 1) {
 		case 0: // request
 			s := Step{Op: "req", C: r.Intn(nConsumers)}
+			// mostly a requester that has not asked in this block yet (the id scheme's limit); a second
+			// request of the same requester in one block now and then
+			if usedInBlock[s.C] && !r.Chance(1, 10) {
+				for k := 0; k < nConsumers; k++ {
+					if c := (s.C + k) % nConsumers; !usedInBlock[c] {
+						s.C = c
+						break
+					}
+				}
+			}
+			usedInBlock[s.C] = true
 			switch r.Weighted(14, 3, 1, 1, 1) {
 			case 0:
 				s.N = uint64(r.Intn(4))
@@ -150,10 +162,19 @@ func gen(r *lib.Rand, tier, stream string, i int) History {
 			case 3:
 				s.N = uint64(1)<<40 + uint64(r.Intn(4))
 			case 4:
-				s.N = uint64(r.Big(62).Uint64())
+				// around the int64 boundary and the uint64 wrap: rejected since "fix: random: reject a
+				// block interval whose destination height wraps below the current height" (C13's finding)
+				switch r.Intn(4) {
+				case 0:
+					s.N = uint64(1)<<63 - uint64(r.Intn(40)) // height + interval crosses 2^63 for some heights
+				case 1:
+					s.N = ^uint64(0) - uint64(r.Intn(3))
+				case 2:
+					s.N = uint64(1)<<63 + uint64(r.Intn(3))
+				case 3:
+					s.N = uint64(r.Big(64).Uint64())
+				}
 			}
-			// height + interval >= 2^63 (the int64 addition in RequestRandom wraps) is C13's finding
-			// (fixed there by rejecting such intervals); this generator stays below it.
 			if r.Intn(5) < oracleShare {
 				s.Oracle = true
 				switch r.Weighted(10, 2, 1, 1) {
@@ -178,6 +199,7 @@ func gen(r *lib.Rand, tier, stream string, i int) History {
 			h.Steps = append(h.Steps, s)
 		case 1: // block
 			s := Step{Op: "block"}
+			usedInBlock = map[int]bool{}
 			switch r.Weighted(6, 3, 1) {
 			case 0:
 				s.Dt = 1 + int64(r.Intn(7))
